@@ -176,7 +176,7 @@ Print Assumptions C01_steady_checked.
     state (a member running on a live, reporting host is classified ok after one round: uses the
     time bounds of C05), (b) that under [fleet > shard size] the outcome OError is not allowed in a
     healthy round, and the lift from one shard to all shards.  The closed-loop correspondence checks
-    [C01_heal_full] with B = 26 on every generated run (observed maximum: 5 rounds). *)
+    [C01_heal_full] with B = 16 on every generated run (observed maximum over 20200 runs: 6 rounds). *)
 Definition unhealed_rank_exists : Prop :=
   exists rank : params -> fstate -> nat,
     forall (P : params) (st st' : fstate) plogs nticks o,
